@@ -1,10 +1,14 @@
 #!/bin/bash
-# try_mutant.sh <seed-id> <property> [tier]: apply /verif/seeded/<seed-id>/patch.diff to /repo, run the
-# check, undo the change straight afterwards. Evidence files are not touched (--no-evidence).
-ID=$1; PID=$2; TIER=${3:-quick}
-cd /repo && git status --short | grep -q . && { echo "/repo not clean"; exit 2; }
-git -C /repo apply /verif/seeded/$ID/patch.diff || exit 2
-cd /verif && ./check $PID --tier $TIER --no-evidence ${4:-}; rc=$?
-git -C /repo checkout -- .
+# try_mutant.sh <seed-id> <property> [tier] [extra check args]
+# Runs a check against a seeded change WITHOUT touching /repo: /repo's working tree is copied to a
+# scratch directory, the patch applied there, and ./check pointed at the copy (VERIF_REPO).
+# (Equivalent to `git -C /repo apply <patch>; ./check ..; git -C /repo checkout -- .`, but several
+# trials can run in parallel and /repo stays clean.) Evidence files are not touched.
+ID=$1; PID=$2; TIER=${3:-quick}; shift 3 2>/dev/null
+D=/var/tmp/yarel-verif/mut-$ID-$PID-$$
+mkdir -p $D && rsync -a --exclude target --exclude .git /repo/ $D/repo/ || exit 2
+(cd $D/repo && patch -p1 -s < /verif/seeded/$ID/patch.diff) || { echo "patch failed"; rm -rf $D; exit 2; }
+cd /verif && VERIF_REPO=$D/repo ./check $PID --tier $TIER --no-evidence "$@"; rc=$?
+rm -rf $D
 echo "try_mutant $ID $PID tier=$TIER rc=$rc"
 exit $rc
